@@ -63,3 +63,27 @@ Theorem C18_dilute : forall cf cf' c c' solute t solvent, R cf cf' c c' ->
   Rres (R cf cf') (dilute cf c solute t solvent) (dilute cf' c' solute t solvent).
 Proof. exact dilute_R. Qed.
 Print Assumptions C18_dilute.
+
+(* ---- recipes and the tracking queries (ConfigThm3.v): baking the same recipe under two configurations takes the same decision and
+   gives related tables and snapshots; the three queries return the same answers in user units, for every timeframe (slice) ---- *)
+Require Import Recipe RecipeThm ConfigThm3.
+Theorem C18_bake : forall cf cf' objs objs' steps, Renv cf cf' objs objs' -> Forall plain_rstep steps ->
+  Rres (fun x y => Renv cf cf' (fst x) (fst y) /\ Forall2 (Rsnap cf cf') (snd x) (snd y)) (bake cf objs steps) (bake cf' objs' steps).
+Proof. exact bake_R. Qed.
+Print Assumptions C18_bake.
+Theorem C18_timeframe : forall cf cf' (tr tr' : list snap) st, Forall2 (Rsnap cf cf') tr tr' ->
+  Forall2 (Rsnap cf cf') (slice_of tr st) (slice_of tr' st).
+Proof. exact slice_of_R. Qed.
+Print Assumptions C18_timeframe.
+Theorem C18_get_substance_used : forall cf cf' s dests tr tr' u, Forall2 (Rsnap cf cf') tr tr' ->
+  Rres Qeq (substance_used cf s dests tr u) (substance_used cf' s dests tr' u).
+Proof. exact substance_used_R. Qed.
+Print Assumptions C18_get_substance_used.
+Theorem C18_get_container_flows : forall cf cf' u n w tr tr', Forall2 (Rsnap cf cf') tr tr' ->
+  Racc (flows cf u n w tr) (flows cf' u n w tr').
+Proof. exact flows_R. Qed.
+Print Assumptions C18_get_container_flows.
+Theorem C18_get_amount_remaining : forall cf cf' u n after tr tr', Forall2 (Rsnap cf cf') tr tr' ->
+  Ropt (remaining cf u n after tr) (remaining cf' u n after tr').
+Proof. exact remaining_R. Qed.
+Print Assumptions C18_get_amount_remaining.
